@@ -496,9 +496,9 @@ func init() {
 		Assumptions: []string{"report matching is by mention of the index/field name, value and ids (wording not judged); extra reports on a corrupted database are not judged", "ref-counted link collections are not part of CheckIntegrity (not injected)"},
 		Plan: func(tier core.Tier, seed int64) int {
 			if tier == core.Thorough {
-				return 120000 + c09SibCases*8
+				return 120000 + c09SibCases*8 + c06SymCases*4
 			}
-			return 480 + c09SibCases
+			return 480 + c09SibCases + c06SymCases/2
 		},
 		Run: runC09,
 		Promises: func(core.Tier) map[string][]string {
@@ -515,6 +515,11 @@ func init() {
 const c09SibCases = 24
 
 func runC09(c *core.Ctx, idx int) {
+	if n := map[bool]int{false: 480 + c09SibCases, true: 120000 + c09SibCases*8}[c.Tier == core.Thorough]; idx >= n {
+		// link collections that stay inside one store: history, then soundness and one-sided links (c09SameStoreLinks)
+		c06Symmetric(c, idx-n)
+		return
+	}
 	if n := map[bool]int{false: 480, true: 120000}[c.Tier == core.Thorough]; idx >= n {
 		// soundness over a parent with two sibling child stores (one extended with a non-nullable unique index)
 		siblingScenario(c, idx-n, "C09")
